@@ -428,6 +428,75 @@ def rule_byte_order(chk, rid, families=None, floor=100, also=None):
     return r
 
 
+SIG_BASELINE = _os.path.join(_os.path.dirname(DU_BASELINE), 'sig_siblings.json')
+
+
+def _sig_families():
+    from .. import sigscan
+    from . import inits
+    fam = {}
+    for rel, fs in sigscan.all_units().items():
+        seen = set()
+        for fn, v in sorted(fs.items()):
+            if v['entry'] in seen:
+                continue            # a second label on the same code
+            seen.add(v['entry'])
+            fam.setdefault(inits.arch_stem(fn), {})['%s:%s' % (rel, fn)] = v['sig']
+    return fam
+
+
+def write_sig_baseline():
+    import collections
+    out = {}
+    for st, d in sorted(_sig_families().items()):
+        sigs = {k: v for k, v in d.items() if v and 'BIG' not in v and len(v) >= 40}
+        if len(sigs) < 3:
+            continue
+        top, n = collections.Counter(sigs.values()).most_common(1)[0]
+        if n >= 3 and 2 * n > len(sigs):
+            out[st] = sorted(k for k, v in sigs.items() if v == top)
+    with open(SIG_BASELINE, 'w') as fh:
+        _json.dump({'what': 'families of routines (one function, several instruction sets) whose first stored vector value is computed by the same '
+                            'expression over loads and constants on the reference tree (imbv/sigscan.py)', 'families': out}, fh, indent=0)
+    return len(out), sum(len(v) for v in out.values())
+
+
+def rule_signature_siblings(chk, rid, floor=8):
+    """the members of a family that computed their first result by one recipe on the reference tree still do: a member whose expression now
+    differs from the others' took a different value somewhere (a dropped register copy, an operand taken after instead of before a shift)"""
+    import collections
+    r = chk.rule(rid, 'routines that implement one function for different instruction sets and computed their first stored value by the same '
+                      'expression over loads and constants on the reference tree still agree (GHASH / GCM key pre-computation: HashKey<<1 mod poly)',
+                 floor=floor)
+    try:
+        base = _json.load(open(SIG_BASELINE))['families']
+    except (OSError, ValueError):
+        chk.broken('%s: signature baseline missing' % rid)
+        return r
+    cur = _sig_families()
+    for st, members in sorted(base.items()):
+        d = cur.get(st, {})
+        have = {k: d.get(k) for k in members if d.get(k)}
+        if len(have) < 3:
+            continue                # renamed / restructured beyond recognition: not decided
+        top, n = collections.Counter(have.values()).most_common(1)[0]
+        for k, v in sorted(have.items()):
+            if n * 2 <= len(have):
+                r.bad('%s:%s' % (st, k), k.split(':')[0], 'the members of family %s no longer have a common recipe for their first result' % st)
+                break
+            r.check(v == top, '%s:%s' % (st, k), k.split(':')[0],
+                    '%s: the first value %s stores is no longer computed by the expression its %d siblings use (first difference near `%s` vs `%s`)' % (
+                        st, k.split(':')[1], n, _first_diff(v, top)[0], _first_diff(v, top)[1]))
+    return r
+
+
+def _first_diff(a, b):
+    i = 0
+    while i < min(len(a), len(b)) and a[i] == b[i]:
+        i += 1
+    return a[max(0, i - 30):i + 30], b[max(0, i - 30):i + 30]
+
+
 UNREACH_BASELINE = _os.path.join(_os.path.dirname(DU_BASELINE), 'unreach_baseline.json')
 
 
